@@ -214,8 +214,8 @@ Radio == (\E o \in Outcomes : NegTx(o) \/ DataTx(o)) \/ InPut \/ OutGet
 Submit == nSub < NUp /\ AppSubmit(UpPk(nSub + 1))
 Queue == nQ < NDown /\ CfQueue(DnPk(nQ + 1))
 Pause == nPause < MaxRestarts /\ PauseReq
-Next == Radio \/ Submit \/ AppRecv \/ Queue \/ Pause \/ Restart
-           \/ (\E m \in PeerModes : m # peer.mode /\ Reboot(m))
+PeerReboot(m) == m # peer.mode /\ Reboot(m)
+Next == Radio \/ Submit \/ AppRecv \/ Queue \/ Pause \/ Restart \/ (\E m \in PeerModes : PeerReboot(m))
 
 Spec == Init /\ [][Next]_vars
 \* the radio loop and the receiving application thread keep running; once the loss budget is
